@@ -2,6 +2,7 @@
 //!
 //!   drv_json cases  --cases <ndjson> --out <dir>   TLC cases {ds, shape, norm} -> real code -> events
 //!   drv_json random --n <N> --out <dir>            seeded random abstract data sets -> events
+//!   drv_json parse  --docs <ndjson {kind,doc}> --out <dir>   replay of recorded documents
 //!   drv_json fuzz   --n <N> --cases <ndjson> --out <dir>
 //!                                                   arbitrary + mutated JSON documents -> parse events
 //!
@@ -1190,6 +1191,10 @@ fn mode_fuzz(args: &std::collections::HashMap<String, String>) {
             }
         }
     }
+    run_docs(docs, dir, n_sys);
+}
+
+fn run_docs(docs: Vec<(String, String)>, dir: &str, n_sys: usize) {
     let mut w = NdjsonWriter::create(&format!("{dir}/parse_events.ndjson"));
     let mut failing = NdjsonWriter::create(&format!("{dir}/parse_failing.ndjson"));
     let mut rep = Report::new();
@@ -1229,6 +1234,17 @@ fn mode_fuzz(args: &std::collections::HashMap<String, String>) {
     std::process::exit(0);
 }
 
+/// drv_json parse --docs <ndjson {kind, doc}> --out <dir>   (replay of recorded documents)
+fn mode_parse(args: &std::collections::HashMap<String, String>) {
+    let dir = &args["out"];
+    std::fs::create_dir_all(dir).unwrap();
+    let docs: Vec<(String, String)> = read_ndjson(&args["docs"])
+        .iter()
+        .map(|d| (j_str(&d["kind"]).to_string(), j_str(&d["doc"]).to_string()))
+        .collect();
+    run_docs(docs, dir, 0);
+}
+
 fn main() {
     quiet_panics();
     let args = args_map();
@@ -1237,6 +1253,7 @@ fn main() {
         Some("cases") => mode_cases(&args),
         Some("random") => mode_random(&args),
         Some("fuzz") => mode_fuzz(&args),
+        Some("parse") => mode_parse(&args),
         _ => {
             eprintln!("usage: drv_json cases|random|fuzz ...");
             std::process::exit(2);
